@@ -53,3 +53,8 @@ func VerifH_aesgcm_arbitrary() {
 	a, _, prefix := build()
 	verifh.CheckAEADArbitrary(a, len(prefix)+12+16+2, 16)
 }
+
+func VerifH_c19_aesgcm() {
+	a, _, _ := build()
+	verifh.CheckAEADNoWrite(a)
+}
